@@ -30,7 +30,7 @@ func (*c09) CoqImport() string {
 func (*c09) Rule() string {
 	return "a sequential prefix (nothing / install / install+upgrade) then 2 or 3 concurrent real install/upgrade operations on the same release " +
 		"(flags atomic/cleanup-on-fail/no-hooks, sometimes max-history or --replace; 1-3 resource charts, 0-1 hooks) on memory/Secret/ConfigMap storage, " +
-		"replayed under a gate schedule: corpus witnesses, enumerated interleavings of the base scenarios (quick: sampled; thorough: all two-operation " +
+		"sometimes one rejected mutating cluster request; replayed under a gate schedule: corpus witnesses, enumerated interleavings of the base scenarios (quick: sampled; thorough: all two-operation " +
 		"interleavings, three operations with <= 2 preemptions) and uniformly drawn interleavings of generated scenarios; " +
 		"non-trivial = the effective schedule switches operation at least twice while both are still running; distinct = hash of (case, observation)"
 }
@@ -49,6 +49,20 @@ func c9op(kind string, chart int, f eng.Flags, keys ...string) eng.Op {
 		op.Manifest = append(op.Manifest, eng.Res{Kind: "ConfigMap", Name: k, Fields: map[string]string{"d:k": fmt.Sprintf("v%d", chart)}})
 	}
 	return op
+}
+
+func c9fault(op eng.Op, verb, key string) eng.Op {
+	op.KFault = &eng.KFault{Verb: verb, Key: key}
+	return op
+}
+
+func c9hasFault(c conc.Case) bool {
+	for _, op := range c.Ops {
+		if op.KFault != nil {
+			return true
+		}
+	}
+	return false
 }
 
 func c9hook(name string, events ...string) eng.Hook {
@@ -70,8 +84,18 @@ func c9pre(n int) []eng.Step {
 
 type c9scn struct {
 	name string
-	pre  int
+	pre  int // c9pre(pre); negative: install, then an upgrade that fails (wait failure), so the last revision is "failed"
 	ops  []eng.Op
+}
+
+func c9preOf(n int) []eng.Step {
+	if n >= 0 {
+		return c9pre(n)
+	}
+	s := c9pre(1)
+	o := c9op("upgrade", 2, eng.Flags{}, "a", "b")
+	o.WaitFail = true
+	return append(s, eng.Step{Op: &o})
 }
 
 // the base scenarios of the property: from an empty and from a deployed history
@@ -88,6 +112,12 @@ func c9base() []c9scn {
 		{"deployed2:upgrade|upgrade-atomic", 2, []eng.Op{c9op("upgrade", 10, eng.Flags{Cleanup: true}, "a"), c9op("upgrade", 11, eng.Flags{Atomic: true}, "a", "c")}},
 		{"empty:install-hook|install", 0, []eng.Op{ihk, c9op("install", 11, eng.Flags{}, "b")}},
 		{"deployed:upgrade-hook|upgrade", 1, []eng.Op{hk, c9op("upgrade", 11, eng.Flags{}, "a", "b")}},
+		// the last revision is failed, the deployed one is older: the next revision is last+1, not deployed+1
+		// a rejected cluster request makes the atomic upgrade fail and roll back while the other upgrade runs
+		{"deployed:upgrade-atomic-fault|upgrade", 1, []eng.Op{c9fault(c9op("upgrade", 10, eng.Flags{Atomic: true}, "a", "c"), "create", "ConfigMap/c"), c9op("upgrade", 11, eng.Flags{}, "a")}},
+		// ... and without --atomic: the failed upgrade just records "failed"
+		{"deployed:upgrade-fault|upgrade", 1, []eng.Op{c9fault(c9op("upgrade", 10, eng.Flags{Cleanup: true}, "a", "c"), "patch", "ConfigMap/a"), c9op("upgrade", 11, eng.Flags{}, "a", "b")}},
+		{"deployed+failed:upgrade|upgrade", -1, []eng.Op{c9op("upgrade", 10, eng.Flags{}, "a"), c9op("upgrade", 11, eng.Flags{}, "a", "c")}},
 	}
 }
 
@@ -100,7 +130,7 @@ func c9three() []c9scn {
 }
 
 func (s c9scn) mk(backend string, sched []int) conc.Case {
-	return conc.Case{Backend: backend, Pre: c9pre(s.pre), Ops: s.ops, Sched: sched, Note: s.name}
+	return conc.Case{Backend: backend, Pre: c9preOf(s.pre), Ops: s.ops, Sched: sched, Note: s.name}
 }
 
 // counts: gates of each operation when run alone after the prefix; an install --replace can
@@ -141,6 +171,9 @@ func (*c09) Corpus() []any {
 		out = append(out, base[0].mk(b, []int{0, 1, 0, 1, 0, 1, 0, 1}))
 		out = append(out, base[1].mk(b, []int{1, 0, 0, 0, 0}))
 		out = append(out, base[1].mk(b, []int{0, 0, 1, 0, 0}))
+		out = append(out, base[9].mk(b, []int{0, 1, 0, 1, 0, 1, 0, 1, 0, 1}))
+		// K-C09-2: the automatic rollback of a failed --atomic upgrade races the other upgrade
+		out = append(out, base[7].mk(b, []int{0, 0, 0, 0, 0, 1, 0, 1, 1, 1, 0, 0, 1, 0, 0, 0, 0, 0}))
 	}
 	return out
 }
@@ -149,9 +182,17 @@ func (*c09) Exhaustive(tier string) []any {
 	var out []any
 	r := rand.New(rand.NewSource(909))
 	if tier == "thorough" {
+		c09RaceRun()
 		for _, b := range c9backends {
 			for _, s := range c9base() {
-				for _, sch := range conc.Interleavings(c9counts(s.mk(b, nil))) {
+				all := conc.Interleavings(c9counts(s.mk(b, nil)))
+				if len(all) > 3000 { // the long failure paths (atomic rollback): a large sample on one backend
+					if b != "secret" {
+						continue
+					}
+					all = conc.Sample(r, all, 3000)
+				}
+				for _, sch := range all {
 					out = append(out, s.mk(b, sch))
 				}
 			}
@@ -166,14 +207,14 @@ func (*c09) Exhaustive(tier string) []any {
 	for i, s := range c9base() {
 		b := c9backends[i%len(c9backends)]
 		all := conc.Interleavings(c9counts(s.mk(b, nil)))
-		for _, sch := range conc.Sample(r, all, 40) {
+		for _, sch := range conc.Sample(r, all, 25) {
 			out = append(out, s.mk(b, sch))
 		}
 	}
 	for i, s := range c9three() {
 		b := c9backends[(i+1)%len(c9backends)]
 		all := conc.Bounded(c9counts(s.mk(b, nil)), 2)
-		for _, sch := range conc.Sample(r, all, 25) {
+		for _, sch := range conc.Sample(r, all, 15) {
 			out = append(out, s.mk(b, sch))
 		}
 	}
@@ -184,6 +225,9 @@ func (*c09) Generate(r *rand.Rand, i int) any {
 	c := conc.Case{Backend: c9backends[r.Intn(3)]}
 	npre := r.Intn(3)
 	c.Pre = c9pre(npre)
+	if npre == 1 && r.Intn(3) == 0 {
+		c.Pre = c9preOf(-1)
+	}
 	nops := 2
 	if r.Intn(4) == 0 {
 		nops = 3
@@ -214,6 +258,18 @@ func (*c09) Generate(r *rand.Rand, i int) any {
 		}
 		c.Ops = append(c.Ops, op)
 		notes = append(notes, kind)
+	}
+	if r.Intn(6) == 0 {
+		// one rejected mutating request, on a resource of one of the charts or of the prefix
+		var keys []string
+		for _, op := range c.Ops {
+			for _, m := range op.Manifest {
+				keys = append(keys, m.Key())
+			}
+		}
+		keys = append(keys, "ConfigMap/a", "ConfigMap/b")
+		c.Ops[0].KFault = &eng.KFault{Verb: []string{"create", "patch", "delete"}[r.Intn(3)], Key: keys[r.Intn(len(keys))]}
+		notes = append(notes, "fault")
 	}
 	c.Note = fmt.Sprintf("gen pre%d:%s", npre, strings.Join(notes, "|"))
 	c.Sched = conc.Random(r, c9counts(c))
@@ -266,7 +322,11 @@ func c9kinds(c conc.Case) string {
 
 func (*c09) Class(ci, _ any) string {
 	c := ci.(conc.Case)
-	return fmt.Sprintf("pre%d/%s/%s", len(c.Pre), c9kinds(c), c.Backend)
+	f := ""
+	if c9hasFault(c) {
+		f = "/fault"
+	}
+	return fmt.Sprintf("pre%d/%s/%s%s", len(c.Pre), c9kinds(c), c.Backend, f)
 }
 
 // switches of the effective schedule away from an operation that was still running
@@ -294,6 +354,10 @@ func (*c09) Oracle(ci, oi any) []hx.Violation {
 	c, o := ci.(conc.Case), oi.(conc.Obs)
 	var vs []hx.Violation
 	add := func(sig, what string) { vs = append(vs, hx.Violation{Sig: sig, What: what}) }
+	if c09RaceFound != "" {
+		add("C09:data-race", c09RaceFound)
+		c09RaceFound = ""
+	}
 	if o.Hang != "" {
 		add("C09:hang", o.Hang)
 		return vs
@@ -359,8 +423,17 @@ func (*c09) Oracle(ci, oi any) []hx.Violation {
 	}
 	if nd > 1 {
 		sig := "C09:two-deployed"
-		if replace && startEmpty {
-			sig = "C09:two-deployed-install-replace-races-install" // K8
+		atomicUp := false
+		for _, op := range c.Ops {
+			if op.Kind == "upgrade" && op.Flags.Atomic {
+				atomicUp = true
+			}
+		}
+		switch {
+		case replace && startEmpty:
+			sig = "C09:two-deployed-install-replace-races-install" // K-C09-1
+		case atomicUp && c9hasFault(c):
+			sig = "C09:two-deployed-atomic-rollback-races-upgrade" // K-C09-2
 		}
 		var outs []string
 		for _, oo := range o.Ops {
